@@ -3,7 +3,7 @@ package coin
 // C31-H3 — UxOut.CoinHours against hours + floor(coins*seconds/3.6e9), with an
 // error exactly when an intermediate or the final sum does not fit in 64 bits.
 
-//vp:prop C31
+//vp:prop C31 C03
 //vp:bounds none: loop-free; Head.Time, t, Coins, Hours free 64-bit
 func vpH_C31_CoinHours() {
 	var ux UxOut
@@ -44,7 +44,7 @@ func vpH_C31_CoinHours() {
 	}
 }
 
-//vp:prop C31
+//vp:prop C31 C03
 //vp:bounds none: loop-free; coins, seconds free 64-bit with both partial products fitting
 func vpH_C31_CoinHoursFormula() {
 	// the two-step rounding used by the code equals floor(coins*s/3.6e9)
